@@ -182,7 +182,10 @@ class _G:
         if c == 'vars':
             v = rng.choice(['v1', 'v2'])
             self.vars_bound.append(v)
-            steps = [['T', 'S', [['(', [[], {v: {'t': 'spec', 'v': ['Vars', [], [['d', self.token()]]]}}]]]],
+            form = rng.choice(['defaults', 'bare', 'base', 'base+defaults'])
+            base = [['d', self.token()]] if form in ('base', 'base+defaults') else []
+            dflt = [['d', self.token()]] if form == 'defaults' else ([['e', self.token()]] if form == 'base+defaults' else [])
+            steps = [['T', 'S', [['(', [[], {v: {'t': 'spec', 'v': ['Vars', base, dflt]}}]]]],
                      self.observe(d), ['Val', self.token()],
                      ['T', 'A', [['.', v], ['.', 'x']]]]
             steps.append(self.observe(d))
